@@ -108,6 +108,28 @@ CHECKS = {
              "exactly the next statement given by a reference interpreter of the structured program; the decision on a used flow_configs object equals the decision on a fresh copy.",
         note="Programs are ASTs rendered to Colang 1.0 text and parsed by the real parser once per program (untraced). Outside: competing intents, several dialog flows, priorities, when/else when.",
         ref="4/C14"),
+    "C01": dict(
+        text="Through the real LLMRails.generate_async (shipped llm_flows.co, real prompts, FakeLLM recording every prompt): Colang 1.0 with 2 (thorough 3) input rails whose verdicts "
+             "accept/reject/rewrite are symbolic, user text on a predefined dialog path or on the full 3-call generation path, refusal by message or rail exception, 1 (thorough 2) turns: on "
+             "every path the rails invoked are exactly 1..k+1 in configured order, each sees the text as rewritten so far, a rejection means zero LLM calls in the turn and that rail's refusal, "
+             "otherwise every LLM call follows the last rail, no prompt contains the original text once rewritten and the intent prompt contains the text let through. Colang 2.x + "
+             "library/guardrails.co: 2 (thorough 3) rails accept/reject, order, stop at first rejection, refusal / rail exception, dialog flow not reacting to a rejected message.",
+        note="User texts are concrete markers (taint check, not a quantification over strings). Stubs: FakeLLM, StubVec embeddings, VLoop, handover of the v2 state object. Outside: >2 turns.",
+        ref="4/C01"),
+    "C02": dict(
+        text="Through the real LLMRails.generate_async over 2 (thorough 3) turns of one conversation: Colang 1.0 with 1 (thorough 2) output rails (symbolic accept/reject/rewrite per turn) "
+             "and a symbolic choice per turn between a predefined and an LLM-generated bot message; Colang 2.x + library/guardrails.co with 1 (thorough 2) output rails. On every path each "
+             "LLM-generated message is passed to the output rails in order (rewritten text to later rails), the reply is the checked / rewritten text or the refusal / rail exception, a "
+             "rejected text never appears in the response, and this holds in every later turn whatever the earlier verdicts were.",
+        note="Bot texts are concrete markers per turn; in v2 the turn's text comes from a stub action standing for the LLM; v2 state handed over by reference. Outside: streaming, >3 turns.",
+        ref="4/C02"),
+    "C03": dict(
+        text="Through the real LLMRails.generate_async over 2 (thorough 3) turns with an input rail action, a dialog action and an output rail action (verdicts accept), one (thorough two) "
+             "injected exception(s) at symbolic global invocation indices covering every call site of every turn, Colang 1.0 and 2.x: generate returns normally, the text guarded by the "
+             "failed action never reaches the response, a failed rail action yields a refusal or the fixed internal-error message, and a fault-free turn - in particular the turn after a "
+             "fault - runs all three actions in order and returns the checked text.",
+        note="Outside: LLM provider failures (excluded by the property), faults inside the library's own LLM actions.",
+        ref="4/C03"),
 }
 
 NOT_APPLICABLE = {
